@@ -19,29 +19,41 @@ def scene_lookup(frames):
     return {f["k"]: [np.array(a, dtype=np.float64) for a in f["animals"]] for f in frames}
 
 
+def frame_hw(plan, f):
+    """Size of the video a frame belongs to (plans may mix two frame sizes: plan['sizes'][vid])."""
+    if "sizes" in plan and "vid" in f:
+        return tuple(plan["sizes"][f["vid"]])
+    return plan["H"], plan["W"]
+
+
 def make_media(plan, hook=None):
-    """Coordinate-carrying frames for every scene frame. Returns (FakeVideo, Labels)."""
-    H, W = plan["H"], plan["W"]
+    """Coordinate-carrying frames for every scene frame. Returns (FakeVideo | None, Labels)."""
     dtype = np.uint8 if plan.get("dtype", "uint8") == "uint8" else np.float32
-    arr = []
-    for f in plan["frames"]:
+
+    def render(f):
+        H, W = frame_hw(plan, f)
         fr = dw.coord_frame(H, W, dw.frame_level(f["k"]), np.float64)
-        if dtype == np.float32:
-            fr = (fr / 255.0).astype(np.float32)
-        else:
-            fr = fr.astype(np.uint8)
-        arr.append(fr)
-    arr = np.stack(arr) if arr else np.zeros((0, H, W, 3), dtype=dtype)
-    video = media.FakeVideo(arr, on_read=hook)
+        return (fr / 255.0).astype(np.float32) if dtype == np.float32 else fr.astype(np.uint8)
+
     sk = media.make_skeleton(plan["n_nodes"], [tuple(e) for e in plan.get("edges", [])] or None)
     spec = []
+    mixed = "sizes" in plan and len({tuple(x) for x in plan["sizes"]}) > 1
+    video = None
+    if not mixed:
+        H, W = plan["H"], plan["W"]
+        arr = [render(f) for f in plan["frames"]]
+        arr = np.stack(arr) if arr else np.zeros((0, H, W, 3), dtype=dtype)
+        video = media.FakeVideo(arr, on_read=hook)
     if any("vid" in f for f in plan["frames"]):
         # labels listed in arbitrary order over two videos: (vid, fidx) is the frame's identity
         nv = 2
         nf = max([f.get("fidx", 0) for f in plan["frames"]] + [0]) + 1
-        varr = [np.zeros((nf, H, W, 3), dtype=dtype) for _ in range(nv)]
-        for f, fr in zip(plan["frames"], arr):
-            varr[f["vid"]][f["fidx"]] = fr
+        varr = []
+        for v in range(nv):
+            Hv, Wv = tuple(plan["sizes"][v]) if "sizes" in plan else (plan["H"], plan["W"])
+            varr.append(np.zeros((nf, Hv, Wv, 3), dtype=dtype))
+        for f in plan["frames"]:
+            varr[f["vid"]][f["fidx"]] = render(f)
         vids = [media.make_mem_video(varr[v], name=f"mem{v}.mp4", on_read=hook) for v in range(nv)]
         for f in plan["frames"]:
             insts = [(np.array(a, dtype="float64"), False) for a in f["animals"]]
